@@ -34,3 +34,140 @@ Proof.
   induction ps as [|p ps IH]; cbn [first_success]; [eauto|].
   destruct (parse p data) eqn:E; [eauto|exact IH|]. exfalso. eapply H. exact E.
 Qed.
+
+(* ---------- the JWT attribute builder over arbitrary JSON values ---------- *)
+From WI Require Model.Jwt Model.Base64 gen.JwtParams.
+
+Lemma jslookup_shallow : forall k m,
+  Model.Jwt.jlookup k (shallow_map m) = option_map shallow (jslookup k m).
+Proof.
+  intros k m. induction m as [|[k' v] r IH]; cbn [shallow_map map jslookup Model.Jwt.jlookup fst snd option_map]; [reflexivity|].
+  destruct (bytes_eqb k k'); [reflexivity|]. exact IH.
+Qed.
+
+(* a modelled converter cannot panic, whatever the value *)
+Lemma convert_tree_total : forall c v, modelled c = true -> exists o, convert_tree c v = Ok o.
+Proof.
+  intros c v H. destruct c; cbn [modelled] in H; try discriminate; cbn [convert_tree]; eauto.
+  destruct v as [s|m e|b| |l|m]; eauto. destruct l as [|x l]; eauto.
+  destruct (all_as_string (x :: l)); eauto.
+Qed.
+
+Lemma attrs_tree_total : forall t m,
+  forallb (fun p => modelled (tp_conv p)) t = true -> exists l, attrs_tree t m = Ok l.
+Proof.
+  intros t m. induction t as [|p r IH]; cbn [forallb attrs_tree]; intros H; [eauto|].
+  apply andb_prop in H. destruct H as [Hp Hr]. destruct (IH Hr) as [lr Elr]. rewrite Elr.
+  destruct (jslookup (tp_key p) m) as [v|]; cbn [bind].
+  - destruct (convert_tree_total (tp_conv p) v Hp) as [o Eo]. rewrite Eo. cbn [bind]. eauto.
+  - eauto.
+Qed.
+
+(* on the three converters of the repository the tree model and the model of C18 (Model/Jwt.v, arrays and
+   objects opaque) are the same function *)
+Definition lift_param (p : Model.Jwt.param) : tparam :=
+  mktparam (Model.Jwt.p_key p) (Model.Jwt.p_label p) (tconv_of_conv (Model.Jwt.p_conv p)).
+Definition conv_known (c : Model.Jwt.conv) : bool := match c with Model.Jwt.CUnknown => false | _ => true end.
+
+Lemma convert_tree_agrees : forall c v, conv_known c = true ->
+  convert_tree (tconv_of_conv c) v = Ok (Model.Jwt.convert c (shallow v)).
+Proof. intros c v H. destruct c; cbn [conv_known] in H; try discriminate; reflexivity. Qed.
+
+Lemma attrs_tree_agrees : forall t m,
+  forallb (fun p => conv_known (Model.Jwt.p_conv p)) t = true ->
+  attrs_tree (map lift_param t) m = Ok (Model.Jwt.attrs_in t (shallow_map m)).
+Proof.
+  intros t m. unfold Model.Jwt.attrs_in.
+  induction t as [|p r IH]; cbn [forallb map attrs_tree flat_map]; intros H; [reflexivity|].
+  apply andb_prop in H. destruct H as [Hp Hr]. rewrite (IH Hr). clear IH.
+  cbn [lift_param tp_key tp_conv tp_label]. rewrite jslookup_shallow.
+  destruct (jslookup (Model.Jwt.p_key p) m) as [v|]; cbn [option_map bind]; [|reflexivity].
+  rewrite (convert_tree_agrees _ v Hp). cbn [bind].
+  destruct (Model.Jwt.convert (Model.Jwt.p_conv p) (shallow v)); reflexivity.
+Qed.
+
+Lemma tconv_names_agree : forall n, tconv_of_conv (Model.Jwt.conv_of_name n) = tconv_of_name n.
+Proof.
+  intros n. unfold Model.Jwt.conv_of_name, tconv_of_name.
+  destruct (bytes_eqb n (bs "str")); [reflexivity|].
+  destruct (bytes_eqb n (bs "sigAlg")); [reflexivity|].
+  destruct (bytes_eqb n (bs "unixTime")); reflexivity.
+Qed.
+
+Lemma tparams_lift : forall t, tparams_of t = map lift_param (Model.Jwt.params_of t).
+Proof.
+  intros t. unfold tparams_of, Model.Jwt.params_of. rewrite map_map. apply map_ext.
+  intros [[k l] c]. unfold lift_param. cbn [Model.Jwt.p_key Model.Jwt.p_label Model.Jwt.p_conv].
+  now rewrite tconv_names_agree.
+Qed.
+
+(* instance lemmas over the table regenerated from the running code: every converter named in jwtParams is one
+   of the three functions modelled here (a new converter breaks this obligation) *)
+Lemma jwt_table_modelled : forallb (fun p => modelled (tp_conv p)) jwt_tparams = true.
+Proof. vm_compute. reflexivity. Qed.
+Lemma jwt_table_known : forallb (fun p => conv_known (Model.Jwt.p_conv p)) Model.Jwt.jwt_params = true.
+Proof. vm_compute. reflexivity. Qed.
+
+Theorem jwt_describe_tree_total : forall h p sig,
+  describe_tree jwt_tparams h p sig
+  = Ok (Model.Jwt.describe_jwt (Model.Jwt.mkjwt (shallow_map h) (shallow_map p) sig)).
+Proof.
+  intros h p sig. unfold describe_tree, jwt_tparams, Model.Jwt.describe_jwt, Model.Jwt.describe_in.
+  rewrite tparams_lift. fold Model.Jwt.jwt_params.
+  rewrite !(attrs_tree_agrees _ _ jwt_table_known). reflexivity.
+Qed.
+
+Theorem jwt_attrs_tree_no_panic : forall m site, attrs_tree jwt_tparams m <> Panic site.
+Proof.
+  intros m site. destruct (attrs_tree_total jwt_tparams m jwt_table_modelled) as [l E]. rewrite E. discriminate.
+Qed.
+
+(* the shape of defect the array-valued inputs are generated for: joining the elements of an array with an
+   unchecked v[i].(string) panics on {"aud":["svc-a",7]}; with the comma-ok form it cannot *)
+Definition aud_unchecked : list tparam := [mktparam (bs "aud") (bs "Audience") TListUnchecked].
+Lemma unchecked_element_assertion_panics :
+  exists m site, attrs_tree aud_unchecked m = Panic site.
+Proof.
+  exists [(bs "aud", JsArr [JsStr (bs "svc-a"); JsNum 7 0])]. eexists. vm_compute. reflexivity.
+Qed.
+Lemma checked_element_assertion_total : forall v, exists o, convert_tree TListChecked v = Ok o.
+Proof. intros v. now apply convert_tree_total. Qed.
+
+(* ---------- the uncompressed base point: in-place comparison of the halves ---------- *)
+Lemma bytes_eqb_app_split : forall x y r, (length x <= length r)%nat ->
+  bytes_eqb (x ++ y) r = bytes_eqb x (firstn (length x) r) && bytes_eqb y (skipn (length x) r).
+Proof.
+  induction x as [|a x IH]; intros y r H.
+  - cbn [app length firstn skipn bytes_eqb]. reflexivity.
+  - destruct r as [|b r]; [cbn [length] in H; inversion H|].
+    cbn [app length firstn skipn bytes_eqb]. cbn [length] in H. apply le_S_n in H.
+    rewrite (IH y r H). now rewrite andb_assoc.
+Qed.
+
+(* wherever the slices exist the two forms agree ... *)
+Lemma sliced_agrees : forall gx gy base, (1 + length gx <= length base)%nat ->
+  uncompressed_sliced gx gy base = Ok (uncompressed_appended gx gy base).
+Proof.
+  intros gx gy base H. unfold uncompressed_sliced, uncompressed_appended.
+  destruct (Nat.ltb_spec (length base) (1 + length gx)) as [L|_]; [exfalso; apply (Nat.lt_irrefl (length base)); eapply Nat.lt_le_trans; eassumption|].
+  rewrite bytes_eqb_app_split; [reflexivity|]. destruct base as [|b r]; cbn [length tl] in *; [inversion H|]. now apply le_S_n.
+Qed.
+
+(* ... and on every shorter point (the 04 prefix alone, 04 and half a coordinate, ...) the sliced form panics
+   while the appended form answers false *)
+Lemma sliced_panics_when_short : forall gx gy base, (length base < 1 + length gx)%nat ->
+  (exists site, uncompressed_sliced gx gy base = Panic site) /\ (gx <> [] -> uncompressed_appended gx gy base = false).
+Proof.
+  intros gx gy base H. split.
+  - unfold uncompressed_sliced. destruct (Nat.ltb_spec (length base) (1 + length gx)) as [_|G]; [eauto|].
+    exfalso. apply (Nat.lt_irrefl (length base)). eapply Nat.lt_le_trans; eassumption.
+  - intros Hne. unfold uncompressed_appended.
+    assert (L : (length (tl base) < length (gx ++ gy))%nat).
+    { rewrite app_length. destruct base as [|b r]; cbn [tl length] in *.
+      - destruct gx; [congruence|cbn [length]]. apply Nat.lt_0_succ.
+      - apply Nat.succ_lt_mono in H. eapply Nat.lt_le_trans; [exact H|]. apply Nat.le_add_r. }
+    revert L. generalize (gx ++ gy) as a, (tl base) as r. clear.
+    induction a as [|x a IH]; intros r L; [inversion L|].
+    destruct r as [|y r]; [reflexivity|]. cbn [bytes_eqb]. cbn [length] in L. apply Nat.succ_lt_mono in L.
+    rewrite (IH r L). apply andb_false_r.
+Qed.
